@@ -2161,6 +2161,60 @@ def b_partial(interp, args, kwargs):
     return r
 
 
+_WRAP_ASSIGNED = ('__module__', '__name__', '__qualname__', '__doc__',
+                  '__annotations__', '__type_params__')
+_INTERNAL_FIELDS = ('__hasattr__', '__type__', '__truth__', '__closed__',
+                    '__open__', '__class_name__', '__iter_items__',
+                    '__call__')
+
+
+def b_update_wrapper(interp, args, kwargs):
+    """functools.update_wrapper(wrapper, wrapped): the listed attributes
+    the wrapped object has are copied, the instance dictionary of the
+    wrapped object is merged into the wrapper's, __wrapped__ is set."""
+    if len(args) < 2 or set(kwargs) - {'assigned', 'updated'}:
+        return NotImplemented
+    wrapper, wrapped = args[0], args[1]
+    if not isinstance(wrapper, Obj) or not isinstance(
+            wrapped, (Obj, FuncRef, AbsFunc)):
+        return NotImplemented
+    if 'assigned' in kwargs or 'updated' in kwargs or len(args) > 2:
+        return NotImplemented
+    interp.effect('call', 'functools.update_wrapper',
+                  (interp.termify(wrapper), interp.termify(wrapped)))
+    for name in _WRAP_ASSIGNED:
+        if isinstance(wrapped, Obj):
+            v = wrapped.fields.get(name)
+            if v is None and wrapped.cls is not None:
+                v = interp.get_attr(wrapped, name, missing_ok=True)
+        elif isinstance(wrapped, FuncRef):
+            v = interp.world.func_attrs.get(wrapped.qualname, {}).get(name)
+            if v is None:
+                v = {'__name__': K(wrapped.name),
+                     '__qualname__': K(wrapped.qualname),
+                     '__module__': K(getattr(wrapped.module, 'name', None)),
+                     '__doc__': K(ast.get_docstring(wrapped.node)
+                                  if isinstance(wrapped.node,
+                                                ast.FunctionDef) else None),
+                     '__annotations__': DictV([]),
+                     '__type_params__': K(())}.get(name)
+        else:
+            v = None
+        if v is not None:
+            wrapper.fields[name] = v
+    if isinstance(wrapped, Obj):
+        for k, v in list(wrapped.fields.items()):
+            if k not in _INTERNAL_FIELDS and k not in _WRAP_ASSIGNED and \
+                    not isinstance(v, (AbsFunc,)):
+                wrapper.fields[k] = v
+    elif isinstance(wrapped, FuncRef):
+        for k, v in interp.world.func_attrs.get(wrapped.qualname,
+                                                {}).items():
+            wrapper.fields[k] = v
+    wrapper.fields['__wrapped__'] = wrapped
+    return wrapper
+
+
 def b_wraps(interp, args, kwargs):
     """functools.wraps(f)(g) is update_wrapper(g, f) and returns g."""
     if len(args) != 1 or kwargs:
@@ -2168,8 +2222,10 @@ def b_wraps(interp, args, kwargs):
     f = args[0]
 
     def run(i2, a, kw):
-        i2.opaque_call('functools.update_wrapper',
-                       ExtRef('functools.update_wrapper'), [a[0], f], {})
+        r = b_update_wrapper(i2, [a[0], f], {})
+        if r is NotImplemented:
+            i2.opaque_call('functools.update_wrapper',
+                           ExtRef('functools.update_wrapper'), [a[0], f], {})
         return a[0]
     return AbsFunc('wraps', run)
 
@@ -2512,7 +2568,7 @@ BUILTINS = {
     'math.ceil': b_math_ceil, 'pow': b_pow, 'map': b_map,
     'functools.reduce': b_reduce, 'functools.partial': b_partial,
     'collections.namedtuple': b_namedtuple,
-    'functools.wraps': b_wraps, 'divmod': b_divmod,
+    'functools.wraps': b_wraps, 'functools.update_wrapper': b_update_wrapper, 'divmod': b_divmod,
     'sys.exc_info': b_exc_info, 'sys.exception': b_sys_exception, 'format': b_format,
     're.escape': b_pure_ext('re.escape'),
     'str.maketrans': b_maketrans(str), 'bytes.maketrans': b_maketrans(bytes),
